@@ -55,6 +55,11 @@ fn main() {
             }
             if !o.alarms.is_empty() {
                 hit += 1;
+                if hit == 1 {
+                    for l in &o.dump {
+                        println!("{}", l);
+                    }
+                }
             }
         }
         println!("{} of {} repetitions of the case raised an alarm", hit, reps);
